@@ -364,6 +364,21 @@ func genC11CLI(c *corpus, r *rng, seed uint64) *scn.Scenario {
 		in.Path = dir + "f" + string(rune('a'+i/10)) + string(rune('0'+i%10)) + ".php"
 		s.Inputs = append(s.Inputs, in)
 	}
+	if r.chance(25) {
+		// swarm: entries the program walks past without processing them (not
+		// *.php), sorted before and after the files it does process
+		for k := 1 + r.n(2); k > 0; k-- {
+			name := []string{"aa_notes.txt", "zz_readme.md", "zz_data.json", "sub/zz_more.txt", "Makefile"}[r.n(5)]
+			dup := false
+			for _, in := range s.Inputs {
+				dup = dup || in.Path == name || (split && !strings.Contains(name, "/"))
+			}
+			if dup {
+				continue
+			}
+			s.Inputs = append(s.Inputs, scn.Input{Name: "(not a php file)", Src: []byte("<?php echo 'never parsed';\nnot php at all {{{\n"), Path: name, Callback: true})
+		}
+	}
 	if split {
 		seen := map[string]bool{}
 		for _, in := range s.Inputs {
@@ -409,6 +424,12 @@ func genC11CLI(c *corpus, r *rng, seed uint64) *scn.Scenario {
 	s.Sched = r.schedule(est, s.Workers+2)
 	if s.Sched.Mode == 3 && s.Sched.SiteClass != "sync" && r.chance(50) {
 		s.Sched.SiteClass = "cli"
+		if r.chance(40) {
+			// the program's own goroutines meet at channel operations and at the
+			// WaitGroup: preempt right before and right after those
+			s.Sched.SiteClass = "sync"
+			s.Sched.Mean = uint64([]int{1, 2, 3, 5, 10}[r.n(5)])
+		}
 	}
 	s.Knob = r.knob(knobs)
 	s.Faults = scn.Faults{Seed: r.next(), GCSteps: r.gcSteps(est)}
